@@ -1,9 +1,22 @@
 """Prints the prompt for a seeded-mutation sub-agent for one property (property text only)."""
 import json, sys
 pid = sys.argv[1]
-wt = f'/tmp/mut/{pid}'
+rnd = int(sys.argv[2]) if len(sys.argv) > 2 else 1          # round 2: new changes, different from round 1
+wt = f'/tmp/mut/{pid}' + ('' if rnd == 1 else f'r{rnd}')
+work = '/tmp/mutwork' + ('' if rnd == 1 else str(rnd))
+prefix = 'm' if rnd == 1 else 'n'
+earlier = ''
+if rnd > 1:
+    import glob
+    ts = []
+    for f in sorted(glob.glob(f'/verif/seeded/{pid}/*/meta.json')):
+        m = json.load(open(f))
+        ts.append('  - ' + (m.get('title') or '').replace('\n', ' ')[:200] + ' [' + ', '.join(m.get('files') or [])[:120] + ']')
+    earlier = ('\n\nALREADY DONE by a colleague (do NOT repeat these or close variants; choose OTHER functions, OTHER mechanisms, and prefer '
+               'changes that need a multi-step history, an interaction of two features, an unusual size/shape/ordering, or a rarely used '
+               'public entry point of the anchored files):\n' + '\n'.join(ts))
 p = [json.loads(l) for l in open('/verif/properties.jsonl') if json.loads(l)['id'] == pid][0]
-print(f"""You are testing how robust a Python library's guarantees are. The library is biogeme (discrete choice models; expression trees evaluated by the compiled engine cythonbiogeme). You have your OWN scratch git worktree of the repository at {wt} (create it first with: `git -C /repo worktree add --detach {wt} HEAD`). Work ONLY inside {wt} and /tmp/mutwork/{pid} (create it). Do NOT read, list or use anything under /verif, and do not touch /repo itself (no edits, no commits there). Run Python as `cd /tmp/mutwork/{pid} && PYTHONPATH={wt}/src /venv/bin/python ...` (the installed package otherwise points at /repo/src, so PYTHONPATH is essential; check with `python -c "import biogeme; print(biogeme.__file__)"`). Always run in the scratch cwd: estimation writes files into cwd. Note: `BIOGEME(db, formula)` works; pass `parameters=Parameters()` objects if you want to set options.
+print(f"""You are testing how robust a Python library's guarantees are. The library is biogeme (discrete choice models; expression trees evaluated by the compiled engine cythonbiogeme). You have your OWN scratch git worktree of the repository at {wt} (create it first with: `git -C /repo worktree add --detach {wt} HEAD`). Work ONLY inside {wt} and {work}/{pid} (create it). Do NOT read, list or use anything under /verif, and do not touch /repo itself (no edits, no commits there). Run Python as `cd {work}/{pid} && PYTHONPATH={wt}/src /venv/bin/python ...` (the installed package otherwise points at /repo/src, so PYTHONPATH is essential; check with `python -c "import biogeme; print(biogeme.__file__)"`). Always run in the scratch cwd: estimation writes files into cwd. Note: `BIOGEME(db, formula)` works; pass `parameters=Parameters()` objects if you want to set options.
 
 THE PROPERTY (id {pid}): {p['title']}
 Statement: {p['statement']}
@@ -11,11 +24,11 @@ Quantified over: {p['quantifier']['text']}
 Why the existing tests cannot settle it: {p['why_tests_cant']}
 Code it is anchored in: {', '.join(p['anchors']['files'])}
 
-YOUR TASK: produce THREE independent, realistic changes to the library source (under {wt}/src/biogeme), each of which BREAKS this property while the code still imports/compiles and the existing test suite still passes. Each change should look like a plausible slip or well-meant refactoring (an off-by-one, a swapped operand, sorted vs unsorted, > vs >=, a cache not invalidated, a wrong variable of a similar name, a special case handled "more efficiently", two sites that each look fine alone), and should need something SPECIFIC to manifest — an unusual input, a particular multi-step sequence of operations, a particular size/shape/ordering, an edge value, a crash or fault at a particular point — NOT something any ordinary use would expose at once. NEVER use `git stash` (the stash is shared by all worktrees of the repository and other people work in sibling worktrees): save a change with `git diff > file`, reset with `git checkout -- .`, restore with `git apply file`. Make the three changes different in mechanism and location (different functions/files where possible). Keep each change small (1-15 lines).
+YOUR TASK: produce THREE independent, realistic changes to the library source (under {wt}/src/biogeme), each of which BREAKS this property while the code still imports/compiles and the existing test suite still passes. Each change should look like a plausible slip or well-meant refactoring (an off-by-one, a swapped operand, sorted vs unsorted, > vs >=, a cache not invalidated, a wrong variable of a similar name, a special case handled "more efficiently", two sites that each look fine alone), and should need something SPECIFIC to manifest — an unusual input, a particular multi-step sequence of operations, a particular size/shape/ordering, an edge value, a crash or fault at a particular point — NOT something any ordinary use would expose at once. NEVER use `git stash` (the stash is shared by all worktrees of the repository and other people work in sibling worktrees): save a change with `git diff > file`, reset with `git checkout -- .`, restore with `git apply file`. Make the three changes different in mechanism and location (different functions/files where possible). Keep each change small (1-15 lines).{earlier}
 
-For EACH change i in 1..3 deliver, under /tmp/mutwork/{pid}/m<i>/ :
+For EACH change i in 1..3 deliver, under {work}/{pid}/{prefix}<i>/ :
   * patch.diff — `git -C {wt} diff` of that change alone (apply each change on a clean tree: `git -C {wt} checkout -- .` between changes);
   * demo.py — a small standalone program that exits 0 and prints PASS on the UNCHANGED tree and exits 1 printing FAIL (with the observed vs expected values) on the changed tree; it must demonstrate a violation of the PROPERTY as stated (not merely a diff in some internal detail); run it both ways and record the outputs;
   * meta.json — {{"property": "{pid}", "title": "<one line>", "files": [...], "needs": "<what specific input/sequence/condition is needed for the violation to manifest>", "why_tests_pass": "<why the existing suite does not notice>", "demo_unchanged": "<output>", "demo_changed": "<output>", "tests_run": "<what you ran and the result>"}}.
 Verify that the existing tests still pass with each change: run at least the test files that touch the modified code (e.g. `cd {wt} && PYTHONPATH={wt}/src /venv/bin/python -m pytest -q -p no:cacheprovider tests/functions/test_<module>.py`), and ONCE for each change the whole suite: `cd {wt} && flock /tmp/mut/suite.$((RANDOM % 3)).lock env PYTHONPATH={wt}/src /venv/bin/python -m pytest -q -p no:cacheprovider -x --timeout=900 2>&1 | tail -5` (the flock serialises the memory-hungry full-suite runs of the several people working on this machine — always use it for the full suite; it takes a few minutes once it starts; on the unchanged tree all 476 tests pass; if a run is killed (exit 137) simply repeat it). A change that makes any existing test fail is not acceptable — refine it.
-When finished: `git -C {wt} checkout -- .`, remove build output/bytecode you created, and `git -C /repo worktree remove --force {wt}`. Keep /tmp/mutwork/{pid}. Final message: for each change one paragraph (what, where, what it needs to manifest) and the paths.""")
+When finished: `git -C {wt} checkout -- .`, remove build output/bytecode you created, and `git -C /repo worktree remove --force {wt}`. Keep {work}/{pid}. Final message: for each change one paragraph (what, where, what it needs to manifest) and the paths.""")
